@@ -109,8 +109,9 @@ class Gen:
     """Builds one random prog.  Tracks, for every instruction, the kind of each channel of its
     value: ('c', Fraction) constant, ('u', rate) UGen signal, ('x',) not usable in arithmetic."""
 
-    def __init__(self, rng, size, demand=True, wf=True, invalid=0.0):
+    def __init__(self, rng, size, demand=True, wf=True, invalid=0.0, mce=None):
         self.rng, self.size, self.demand, self.wf, self.invalid = rng, size, demand, wf, invalid
+        self.use_mce = (rng.random() < 0.5) if mce is None else mce
         self.ins, self.kinds = [], []
         self.nir = rng.choice([0, 0, 1, 2])
         self.nkr = rng.choice([0, 1, 2, 3])
@@ -361,12 +362,85 @@ class Gen:
                 xs.append(self.any_arg(['audio', 'control', 'scalar'], 0.1)[0])
         self.add(['out', rate, ['c', rng.choice(['0', '1', '2'])], xs], [])
 
+    MCE_CLASSES = ('SinOsc', 'Saw', 'LFNoise0', 'LPF', 'Line', 'Impulse')
+
+    def mce_group(self):
+        """2-4 sibling instructions of one kind (same operator / class and rate, arguments chosen independently,
+        channels of different rates and constants mixed in): written as ONE multichannel call in Python."""
+        rng = self.rng
+        n = rng.choice([2, 2, 3, 4])
+        ar = None if self.demand else ['audio', 'control', 'scalar']
+        start = len(self.ins)
+        kind = rng.choice(['madd', 'madd', 'bin', 'bin', 'un', 'sum3', 'sum4', 'U'])
+        if kind == 'un' and not self.sigs(ar):
+            kind = 'U'
+        if kind == 'U' and not [x for x in self.sigs(ar) if x[1] in CAT['LPF'][0]]:
+            pass
+        op = rng.choice(['add', 'sub', 'mul', 'truediv', 'mul', 'add'] if rng.random() < 0.8 else BIN_INFIX[:7] + BIN_METHODS)
+        uop = 'neg' if rng.random() < 0.6 else rng.choice(UN_METHODS)
+        name = rng.choice(self.MCE_CLASSES)
+        rate = rng.choice(CAT[name][0])
+        shared = [self.any_arg(ar, 0.3)[0] for _ in range(4)]      # a column may be common to all channels
+        common = [rng.random() < 0.35 for _ in range(4)]
+        snapshot = list(self.sigs(ar))          # values that exist BEFORE the group (channels do not read each other)
+        pool = snapshot[-8:]
+
+        def pick(j, pconst=0.3):
+            if common[j]:
+                return shared[j]
+            if pool and rng.random() >= pconst:
+                return rng.choice(pool)[0]
+            return self.const()
+        for _ in range(n):
+            if kind == 'madd':
+                a = pick(0, 0.1)
+                if self.kind_of(a)[0] == 'c' and pool:
+                    a = rng.choice(pool)[0]
+                b, c = pick(1), pick(2)
+                self.add(['madd', a, b, c], [self.madd_kind(a, b, c)])
+            elif kind in ('sum3', 'sum4'):
+                xs = [pick(j, 0.25) for j in range(3 if kind == 'sum3' else 4)]
+                self.add([kind] + xs, [self.sumn_kind(xs)])
+            elif kind == 'bin':
+                a, b = pick(0, 0.1), pick(1)
+                if self.kind_of(a)[0] == 'c' and pool:
+                    a = rng.choice(pool)[0]
+                ka, kb = self.kind_of(a), self.kind_of(b)
+                if ka[0] == 'c' and kb[0] == 'c':
+                    if op not in ('add', 'sub', 'mul'):
+                        op = 'add'
+                    self.add(['bin', op, a, b], [self.bin_kind(op, ka, kb)])
+                else:
+                    self.add(['bin', op, a, b], [self.bin_kind(op, ka, kb)])
+            elif kind == 'un':
+                a = rng.choice(pool)[0]
+                self.add(['un', uop, a], [('u', self.kind_of(a)[1])])
+            else:
+                arity = CAT[name][1]
+                args = []
+                for j in range(arity):
+                    if name == 'LPF' and j == 0:
+                        s = [x for x in snapshot if x[1] == rate]
+                        args.append(rng.choice(s[-5:])[0] if s else self.const())
+                    else:
+                        args.append(pick(j))
+                self.add(['U', name, rate, args], [('u', rate)])
+        group = self.ins[start:]
+        # a group must differ in at least one argument and be homogeneous (the `bin` operator may have been changed)
+        same = all(g == group[0] for g in group)
+        homog = all(g[0] == group[0][0] and (g[0] not in ('bin', 'un') or g[1] == group[0][1]) for g in group)
+        if not same and homog:
+            self.mce.append([start, n])
+
     def run(self):
         rng = self.rng
+        self.mce = []
         for _ in range(self.size):
             r = rng.random()
             if r < 0.33 or not self.sigs():
                 self.ugen()
+            elif r < 0.42 and self.use_mce:
+                self.mce_group()
             elif r < 0.93:
                 self.arith()
             else:
@@ -374,6 +448,8 @@ class Gen:
         for _ in range(rng.choice([1, 1, 2])):
             self.out(force_valid=rng.random() >= self.invalid)
         p = {'ins': self.ins}
+        if self.mce:
+            p['mce'] = self.mce
         if self.nir:
             p['ir'] = [rng.choice(CONSTS) for _ in range(self.nir)]
         if self.nkr:
@@ -448,6 +524,21 @@ SEED_PROGS = [
 ]
 
 
+def fix_mce(q, k):
+    """Instruction k was deleted from q: renumber / shorten the multichannel groups."""
+    if 'mce' in q:
+        gs = []
+        for s0, n in q['mce']:
+            if k < s0:
+                gs.append([s0 - 1, n])
+            elif k < s0 + n:
+                if n - 1 >= 2:
+                    gs.append([s0, n - 1])
+            else:
+                gs.append([s0, n])
+        q['mce'] = gs
+
+
 def shrink(prog, still_fails, budget=60):
     """Greedy instruction deletion (with index renumbering) while `still_fails(prog)`."""
     def drop(p, k):
@@ -473,6 +564,7 @@ def shrink(prog, still_fails, budget=60):
             ins.append(ni)
         q = dict(p)
         q['ins'] = ins
+        fix_mce(q, k)
         return q
     cur = prog
     changed = True
